@@ -103,7 +103,7 @@ CLAIMED = {
         "and an invalid piece invalidates whatever contains it at any depth (c16_instances, c16_modifiers, c16_spline_middle, c16_containment, c16_sections, c16_density_keys). "
         "Tie: regenerated arities + assertions of the argument-count check, trans / spline validation, _is_vararg_signature, potable main() and the exception hierarchy; validate compared with Configuration().read on generated well-formed models over all eleven targets and one catalogue mutation of each, a sample through the potable CLI; "
         "text-level malformations (non-numeric tokens, placeholders, not-an-INI-file, signatures, formulas, table data, grid options, [Species]) by the oracle.",
-   note="Trusted: Coq kernel (no axioms); hand-written model tied by generated arities, AST assertions and outcome comparison; lexing by generation; malformations below the model's lexical level are oracle-only (tests, not theorems); numeric failures of well-formed models skipped. Known finding: non-finite grid values accepted.",
+   note="Trusted: Coq kernel (no axioms); hand-written model tied by generated arities, AST assertions and outcome comparison; lexing by generation; malformations below the model's lexical level are oracle-only (tests, not theorems); numeric failures of well-formed models skipped.",
    technique="Coq proof (decision procedure = declarative grammar, by mutual induction; catalogue lemmas) + vm_compute correspondence on generated models and mutations", ref="DESIGN.md section 4 C16"),
  'C17': dict(
    text="Coq theorem (lib/Effects.v): for a writer whose effects are 'all evaluations, then one write of the whole table', a fault at ANY evaluation position k leaves nothing written, for every layout (instantiated for all targets); a piecewise writer (GULP / ADP before their repair) is refuted in Coq. "
